@@ -1069,7 +1069,25 @@ func (e *Engine) evalValue(st *State, fr *frame, in ssa.Value) (Val, string) {
 	case *ssa.MakeInterface:
 		return e.val(st, fr, in.X), ""
 	case *ssa.Convert:
-		return e.convert(e.val(st, fr, in.X), in.X.Type(), in.Type())
+		x := e.val(st, fr, in.X)
+		// a narrowing integer conversion of a value the path has confined to the
+		// target's range keeps the value
+		if f, ok := x.(*Form); ok && e.PruneByFacts {
+			tw, tsigned, toInt := intTypeInfo(in.Type(), e.WordBits)
+			fw, _, fromInt := intTypeInfo(in.X.Type(), e.WordBits)
+			if toInt && fromInt && tw < fw && !tsigned && intForm(f) {
+				if _, isC := f.Const(); !isC {
+					facts := e.factsOf(st.conds)
+					max := formRat(new(big.Rat).SetInt(new(big.Int).Sub(new(big.Int).Lsh(big.NewInt(1), uint(tw)), big.NewInt(1))))
+					if lo, _ := e.proveGE0(f, facts); lo {
+						if hi, _ := e.proveGE0(max.Sub(f), facts); hi {
+							return f, ""
+						}
+					}
+				}
+			}
+		}
+		return e.convert(x, in.X.Type(), in.Type())
 	case *ssa.Extract:
 		t, ok := e.val(st, fr, in.Tuple).(Tuple)
 		if !ok || in.Index >= len(t) {
